@@ -67,6 +67,9 @@ class RawGrp:
     def __len__(self):
         return len(self._ch)
 
+    def __reversed__(self):  # (h5py.Group has it; wrapt forwards special methods looked up on the type)
+        return reversed(self.keys())
+
     def __contains__(self, k):
         self._log("__contains__")
         return any(k == n for n, _ in self._ch)
@@ -231,6 +234,13 @@ def listing(f1: str, f2: str, probe: str, rp: bool) -> bool:
           and [v.name for v in g.values()] == ["/g/" + e for e in exp]
           and sorted(seen) == sorted(exp_visit) and sorted(seen_nodes) == sorted("/g/" + e for e in exp_visit))
     if not ok:
+        return False
+    try:
+        rv = list(reversed(g))
+    except (TypeError, UnsupportedOperationError):
+        rv = None  # (refusing is fine)
+    if rv is not None and rv != exp[::-1]:
+        note(("reversed() exposes", rv))
         return False
     pn = ("metador_" + probe) if rp else fam + probe
     if pn == "":
